@@ -1019,3 +1019,422 @@ Lemma text_mpub_gap_blank_lines :
   tcp_mpub cfg_small (str "t") (blen (mpub_frame (text_msgs body))) (mpub_frame (text_msgs body))
     = TcpOk [ECreateTopic (str "t"); EEnqueue (str "t") [[97%N]] 0].
 Proof. vm_compute. split; reflexivity. Qed.
+
+(* ------------------------------------------------------------------ C10_admin_effect *)
+Lemma lookup_update_other : forall (A : Type) k k' (f : A -> A) l, k' <> k -> lookup k' (update k f l) = lookup k' l.
+Proof.
+  intros A k k' f l NE. induction l as [|[k0 v] l IH]; [reflexivity|].
+  simpl. destruct (bytes_eqb k k0) eqn:E.
+  - apply bytes_eqb_eq in E. subst k0. simpl.
+    destruct (bytes_eqb k' k) eqn:E2; [apply bytes_eqb_eq in E2; contradiction | reflexivity].
+  - simpl. destruct (bytes_eqb k' k0); [reflexivity | exact IH].
+Qed.
+
+Lemma lookup_update_same : forall (A : Type) k (f : A -> A) l, lookup k (update k f l) = option_map f (lookup k l).
+Proof.
+  intros A k f l. induction l as [|[k0 v] l IH]; [reflexivity|].
+  simpl. destruct (bytes_eqb k k0) eqn:E; simpl; rewrite E; [reflexivity | exact IH].
+Qed.
+
+Lemma lookup_remove_other : forall (A : Type) k k' (l : list (bytes * A)), k' <> k -> lookup k' (remove_key k l) = lookup k' l.
+Proof.
+  intros A k k' l NE. induction l as [|[k0 v] l IH]; [reflexivity|].
+  simpl. destruct (bytes_eqb k k0) eqn:E.
+  - apply bytes_eqb_eq in E. subst k0.
+    destruct (bytes_eqb k' k) eqn:E2; [apply bytes_eqb_eq in E2; contradiction | exact IH].
+  - simpl. destruct (bytes_eqb k' k0); [reflexivity | exact IH].
+Qed.
+
+Lemma lookup_remove_same : forall (A : Type) k (l : list (bytes * A)), lookup k (remove_key k l) = None.
+Proof.
+  intros A k l. induction l as [|[k0 v] l IH]; [reflexivity|].
+  simpl. destruct (bytes_eqb k k0) eqn:E; [exact IH | simpl; rewrite E; exact IH].
+Qed.
+
+Lemma lookup_app_other : forall (A : Type) k k' (v : A) l, k' <> k -> lookup k' (l ++ [(k, v)]) = lookup k' l.
+Proof.
+  intros A k k' v l NE. induction l as [|[k0 v0] l IH]; simpl.
+  - destruct (bytes_eqb k' k) eqn:E; [apply bytes_eqb_eq in E; contradiction | reflexivity].
+  - destruct (bytes_eqb k' k0); [reflexivity | exact IH].
+Qed.
+
+Lemma lookup_settle : forall t st, lookup t (settle st) = option_map settle_topic (lookup t st).
+Proof.
+  intros t st. induction st as [|[k v] st IH]; [reflexivity|].
+  simpl. destruct (bytes_eqb t k); [reflexivity | exact IH].
+Qed.
+
+(* the topic an effect is about *)
+Definition effect_topic (e : effect) : option bytes :=
+  match e with
+  | ECreateTopic t | EEnqueue t _ _ | ECreateChannel t _ | EDeleteTopic t | EDeleteChannel t _
+  | EEmptyTopic t | EEmptyChannel t _ | EPauseTopic t _ | EPauseChannel t _ _ => Some t
+  | EPersist | ESetConfig _ _ => None
+  end.
+
+(* an effect changes nothing about any other topic *)
+Lemma apply_effect_other_topic : forall st e t', effect_topic e <> Some t' ->
+  lookup t' (apply_effect st e) = lookup t' st.
+Proof.
+  intros st e t' NE.
+  assert (X : forall t, effect_topic e = Some t -> t' <> t) by (intros t E1 E2; subst; contradiction).
+  destruct e; cbn [effect_topic] in X; cbn [apply_effect]; try reflexivity;
+    try (apply lookup_update_other; apply X; reflexivity);
+    try (apply lookup_remove_other; apply X; reflexivity).
+  - destruct (topic_exists st t); [reflexivity | apply lookup_app_other; apply X; reflexivity].
+  - destruct (lookup t st); [|reflexivity].
+    destruct (is_nil (remove_key c (ts_chans t0)) && has_ephemeral_suffix t);
+      [apply lookup_remove_other | apply lookup_update_other]; apply X; reflexivity.
+Qed.
+
+Lemma apply_effects_other_topic : forall es st t', Forall (fun e => effect_topic e <> Some t') es ->
+  lookup t' (apply_effects st es) = lookup t' st.
+Proof.
+  induction es as [|e es IH]; intros st t' F; [reflexivity|].
+  inversion F; subst. unfold apply_effects in *. cbn [fold_left]. rewrite IH by assumption.
+  apply apply_effect_other_topic. assumption.
+Qed.
+
+(* channel operations leave the topic's own flags and its other channels alone *)
+Lemma chan_op_frame : forall st t ch (f : chan_st -> chan_st) ts,
+  lookup t st = Some ts ->
+  exists ts', lookup t (update t (set_chans (update ch f)) st) = Some ts' /\
+    ts_paused ts' = ts_paused ts /\ ts_depth ts' = ts_depth ts /\
+    lookup ch (ts_chans ts') = option_map f (lookup ch (ts_chans ts)) /\
+    forall ch', ch' <> ch -> lookup ch' (ts_chans ts') = lookup ch' (ts_chans ts).
+Proof.
+  intros st t ch f ts L. rewrite lookup_update_same, L. cbn [option_map].
+  eexists; split; [reflexivity|]. cbn [set_chans ts_paused ts_depth ts_chans].
+  repeat split; [apply lookup_update_same | intros; apply lookup_update_other; assumption].
+Qed.
+
+Inductive admin_op :=
+| OpCreateTopic | OpDeleteTopic | OpEmptyTopic | OpPauseTopic (p : bool)
+| OpCreateChannel | OpDeleteChannel | OpEmptyChannel | OpPauseChannel (p : bool).
+
+Definition admin_paths : list (string * admin_op) := [
+  ("/topic/create", OpCreateTopic); ("/topic/delete", OpDeleteTopic); ("/topic/empty", OpEmptyTopic);
+  ("/topic/pause", OpPauseTopic true); ("/topic/unpause", OpPauseTopic false);
+  ("/channel/create", OpCreateChannel); ("/channel/delete", OpDeleteChannel); ("/channel/empty", OpEmptyChannel);
+  ("/channel/pause", OpPauseChannel true); ("/channel/unpause", OpPauseChannel false)]%string.
+
+(* the stated effect of each endpoint on (topic t, channel ch) *)
+Definition op_effects (op : admin_op) (t ch : bytes) : list effect :=
+  match op with
+  | OpCreateTopic => [ECreateTopic t]
+  | OpDeleteTopic => [EDeleteTopic t]
+  | OpEmptyTopic => [EEmptyTopic t]
+  | OpPauseTopic p => [EPauseTopic t p; EPersist]
+  | OpCreateChannel => [ECreateChannel t ch]
+  | OpDeleteChannel => [EDeleteChannel t ch]
+  | OpEmptyChannel => [EEmptyChannel t ch]
+  | OpPauseChannel p => [EPauseChannel t ch p; EPersist]
+  end.
+
+(* what must hold for the endpoint to answer 200 *)
+Definition op_accepts (op : admin_op) (st : state) (t ch : bytes) : Prop :=
+  match op with
+  | OpCreateTopic => is_valid_name t = true
+  | OpDeleteTopic | OpPauseTopic _ => topic_exists st t = true
+  | OpEmptyTopic => is_valid_name t = true /\ topic_exists st t = true
+  | OpCreateChannel => is_valid_name t = true /\ is_valid_name ch = true /\ topic_exists st t = true
+  | OpDeleteChannel | OpEmptyChannel | OpPauseChannel _ =>
+      is_valid_name t = true /\ is_valid_name ch = true /\ topic_exists st t = true /\ chan_exists st t ch = true
+  end.
+
+Definition chan_arg (ps : list (bytes * bytes)) : bytes :=
+  match qget k_channel ps with Some c => c | None => [] end.
+
+Ltac negb_hyps :=
+  repeat match goal with
+  | H : negb _ = false |- _ => apply negb_false_iff in H
+  | H : negb _ = true |- _ => apply negb_true_iff in H
+  end.
+
+Ltac break_inner :=
+  repeat match goal with
+  | |- context [match ?x with _ => _ end] =>
+      lazymatch x with
+      | context [match _ with _ => _ end] => fail
+      | _ => destruct x eqn:?
+      end
+  end.
+
+Ltac admin_finish :=
+  cbn [fst snd];
+  let X := fresh "X" in let Y := fresh "Y" in
+  intro X; inversion X; subst; negb_hyps;
+  split; intro Y;
+  [ first [ discriminate Y
+          | do 2 eexists; split; [first [reflexivity | eassumption]|]; split; [eassumption|];
+            unfold chan_arg;
+            repeat match goal with H : qget k_channel _ = Some _ |- _ => rewrite H end;
+            split; [reflexivity | cbn [op_accepts]; repeat split; assumption] ]
+  | first [ reflexivity | exfalso; apply Y; reflexivity ] ].
+
+(* C10_admin_effect: each of the ten endpoints, when it answers 200, has produced exactly
+   its stated effect on exactly the object named by its arguments (first value of topic /
+   channel) - and had to find that object; when it answers anything else, nothing at all. *)
+Theorem admin_effect_exact : forall c st r p op s tok effs,
+  tls_gate c = false -> healthy_env c -> In (p, op) admin_paths ->
+  r_method r = MPost -> r_path r = str p ->
+  serve c st r = (Resp s tok, effs) ->
+  (s = 200 -> exists ps t, r_query r = QOk ps /\ qget k_topic ps = Some t /\
+              effs = op_effects op t (chan_arg ps) /\ op_accepts op st t (chan_arg ps)) /\
+  (s <> 200 -> effs = []).
+Proof.
+  intros c st r p op s tok effs T (_ & _ & Hbk & _) Hin M P.
+  unfold admin_paths in Hin. cbn [In] in Hin.
+  repeat match type of Hin with
+  | _ \/ _ => destruct Hin as [Hin|Hin]
+  end; try contradiction; inversion Hin; subst p op; clear Hin.
+  - rewrite (serve_at c st r (rt_static MPost "/topic/create" HCreateTopic) T) by (rewrite M, P; vm_compute; reflexivity).
+    unfold run_handler. cbn [rt_handler rt_static]. unfold do_create_topic, topic_from_query. break_inner; admin_finish.
+  - rewrite (serve_at c st r (rt_static MPost "/topic/delete" HDeleteTopic) T) by (rewrite M, P; vm_compute; reflexivity).
+    unfold run_handler. cbn [rt_handler rt_static]. unfold do_delete_topic, new_req_params, herr. break_inner; admin_finish.
+  - rewrite (serve_at c st r (rt_static MPost "/topic/empty" HEmptyTopic) T) by (rewrite M, P; vm_compute; reflexivity).
+    unfold run_handler. cbn [rt_handler rt_static]. unfold do_empty_topic, new_req_params, herr. rewrite Hbk. cbn [negb].
+    break_inner; admin_finish.
+  - rewrite (serve_at c st r (rt_static MPost "/topic/pause" HPauseTopic) T) by (rewrite M, P; vm_compute; reflexivity).
+    unfold run_handler. cbn [rt_handler rt_static]. unfold do_pause_topic, new_req_params, herr, unpause_path. rewrite P.
+    replace (contains_sub (str "unpause") (str "/topic/pause")) with false by (vm_compute; reflexivity). cbn [negb].
+    break_inner; admin_finish.
+  - rewrite (serve_at c st r (rt_static MPost "/topic/unpause" HPauseTopic) T) by (rewrite M, P; vm_compute; reflexivity).
+    unfold run_handler. cbn [rt_handler rt_static]. unfold do_pause_topic, new_req_params, herr, unpause_path. rewrite P.
+    replace (contains_sub (str "unpause") (str "/topic/unpause")) with true by (vm_compute; reflexivity). cbn [negb].
+    break_inner; admin_finish.
+  - rewrite (serve_at c st r (rt_static MPost "/channel/create" HCreateChannel) T) by (rewrite M, P; vm_compute; reflexivity).
+    unfold run_handler. cbn [rt_handler rt_static]. unfold do_create_channel, existing_topic_from_query, new_req_params, herr.
+    break_inner; admin_finish.
+  - rewrite (serve_at c st r (rt_static MPost "/channel/delete" HDeleteChannel) T) by (rewrite M, P; vm_compute; reflexivity).
+    unfold run_handler. cbn [rt_handler rt_static]. unfold do_delete_channel, existing_topic_from_query, new_req_params, herr.
+    break_inner; admin_finish.
+  - rewrite (serve_at c st r (rt_static MPost "/channel/empty" HEmptyChannel) T) by (rewrite M, P; vm_compute; reflexivity).
+    unfold run_handler. cbn [rt_handler rt_static]. unfold do_empty_channel, existing_topic_from_query, new_req_params, herr.
+    rewrite Hbk. cbn [negb]. break_inner; admin_finish.
+  - rewrite (serve_at c st r (rt_static MPost "/channel/pause" HPauseChannel) T) by (rewrite M, P; vm_compute; reflexivity).
+    unfold run_handler. cbn [rt_handler rt_static]. unfold do_pause_channel, existing_topic_from_query, new_req_params, herr, unpause_path.
+    rewrite P. replace (contains_sub (str "unpause") (str "/channel/pause")) with false by (vm_compute; reflexivity). cbn [negb].
+    break_inner; admin_finish.
+  - rewrite (serve_at c st r (rt_static MPost "/channel/unpause" HPauseChannel) T) by (rewrite M, P; vm_compute; reflexivity).
+    unfold run_handler. cbn [rt_handler rt_static]. unfold do_pause_channel, existing_topic_from_query, new_req_params, herr, unpause_path.
+    rewrite P. replace (contains_sub (str "unpause") (str "/channel/unpause")) with true by (vm_compute; reflexivity). cbn [negb].
+    break_inner; admin_finish.
+Qed.
+
+Lemma op_effects_topic : forall op t ch t', t' <> t ->
+  Forall (fun e => effect_topic e <> Some t') (op_effects op t ch).
+Proof.
+  intros op t ch t' NE. destruct op; cbn [op_effects]; repeat constructor; cbn [effect_topic];
+    try discriminate; intro X; inversion X; subst; contradiction.
+Qed.
+
+(* ... and nothing else: whatever the answer, every topic other than the one named by the
+   request is exactly as before (up to its own message pump), and a refusal changes nothing *)
+Theorem admin_touches_only_named : forall c st r p op s tok st',
+  tls_gate c = false -> healthy_env c -> In (p, op) admin_paths ->
+  r_method r = MPost -> r_path r = str p ->
+  run c st r = (Resp s tok, st') ->
+  (s <> 200 -> st' = settle st) /\
+  (forall t', (forall ps t, r_query r = QOk ps -> qget k_topic ps = Some t -> t' <> t) ->
+              lookup t' st' = option_map settle_topic (lookup t' st)).
+Proof.
+  intros c st r p op s tok st' T H Hin M P R.
+  unfold run in R. destruct (serve c st r) as [resp effs] eqn:S. inversion R; subst resp st'; clear R.
+  destruct (admin_effect_exact c st r p op s tok effs T H Hin M P S) as [A200 Aother].
+  split.
+  - intro NE. rewrite (Aother NE). reflexivity.
+  - intros t' Hother. rewrite lookup_settle. f_equal.
+    destruct (Z.eq_dec s 200) as [E|NE].
+    + destruct (A200 E) as (ps & t & Q & QT & Eff & _). subst effs.
+      apply apply_effects_other_topic. apply op_effects_topic. eapply Hother; eassumption.
+    + rewrite (Aother NE). reflexivity.
+Qed.
+
+(* within the named topic: pause / unpause / empty touch one field *)
+Lemma topic_pause_frame : forall st t p ts, lookup t st = Some ts ->
+  lookup t (apply_effect st (EPauseTopic t p)) = Some (mkTopic p (ts_depth ts) (ts_chans ts)).
+Proof. intros. cbn [apply_effect]. rewrite lookup_update_same, H. reflexivity. Qed.
+Lemma topic_empty_frame : forall st t ts, lookup t st = Some ts ->
+  lookup t (apply_effect st (EEmptyTopic t)) = Some (mkTopic (ts_paused ts) 0 (ts_chans ts)).
+Proof. intros. cbn [apply_effect]. rewrite lookup_update_same, H. reflexivity. Qed.
+Lemma topic_delete_frame : forall st t, lookup t (apply_effect st (EDeleteTopic t)) = None.
+Proof. intros. cbn [apply_effect]. apply lookup_remove_same. Qed.
+Lemma topic_create_frame : forall st t,
+  lookup t (apply_effect st (ECreateTopic t)) = Some (match lookup t st with Some ts => ts | None => new_topic end).
+Proof.
+  intros st t. cbn [apply_effect]. unfold topic_exists. destruct (lookup t st) eqn:L; [exact L|].
+  induction st as [|[k v] st IH]; simpl in *.
+  - rewrite bytes_eqb_refl. reflexivity.
+  - destruct (bytes_eqb t k); [discriminate | apply IH; exact L].
+Qed.
+
+(* ------------------------------------------------------------------ the status table, condition by condition *)
+Definition topic_taking_paths : list string :=
+  ["/topic/create"; "/topic/delete"; "/topic/empty"; "/topic/pause"; "/topic/unpause";
+   "/channel/create"; "/channel/delete"; "/channel/empty"; "/channel/pause"; "/channel/unpause"]%string.
+
+(* missing topic argument -> 400 MISSING_ARG_TOPIC, on every admin endpoint *)
+Theorem missing_topic_400 : forall c st r p ps,
+  tls_gate c = false -> In p topic_taking_paths -> r_method r = MPost -> r_path r = str p ->
+  r_query r = QOk ps -> r_body_err r = false -> qget k_topic ps = None ->
+  serve c st r = (Resp 400 (str "MISSING_ARG_TOPIC"), []).
+Proof.
+  intros c st r p ps T Hin M P Q BE QT. unfold topic_taking_paths in Hin. cbn [In] in Hin.
+  repeat match type of Hin with _ \/ _ => destruct Hin as [Hin|Hin] end; try contradiction; subst p.
+  all: unfold serve; rewrite T, M, P;
+    match goal with |- context [route_request ?m ?q] =>
+      let rr := eval vm_compute in (route_request m q) in change (route_request m q) with rr end;
+    unfold run_handler; cbn [rt_handler];
+    unfold do_create_topic, do_delete_topic, do_empty_topic, do_pause_topic, do_create_channel, do_delete_channel,
+      do_empty_channel, do_pause_channel, existing_topic_from_query, topic_from_query, new_req_params, read_all, herr;
+    rewrite Q, ?BE, QT; reflexivity.
+Qed.
+
+(* a syntactically valid but unknown topic -> 404 TOPIC_NOT_FOUND (never created by the way) *)
+Definition existing_topic_paths : list string :=
+  ["/topic/delete"; "/topic/empty"; "/topic/pause"; "/topic/unpause";
+   "/channel/create"; "/channel/delete"; "/channel/empty"; "/channel/pause"; "/channel/unpause"]%string.
+
+Theorem unknown_topic_404 : forall c st r p ps t ch,
+  tls_gate c = false -> In p existing_topic_paths -> r_method r = MPost -> r_path r = str p ->
+  r_query r = QOk ps -> r_body_err r = false ->
+  qget k_topic ps = Some t -> is_valid_name t = true ->
+  qget k_channel ps = Some ch -> is_valid_name ch = true ->
+  topic_exists st t = false ->
+  serve c st r = (Resp 404 (str "TOPIC_NOT_FOUND"), []).
+Proof.
+  intros c st r p ps t ch T Hin M P Q BE QT VT QC VC NX. unfold existing_topic_paths in Hin. cbn [In] in Hin.
+  repeat match type of Hin with _ \/ _ => destruct Hin as [Hin|Hin] end; try contradiction; subst p.
+  all: unfold serve; rewrite T, M, P;
+    match goal with |- context [route_request ?m ?q] =>
+      let rr := eval vm_compute in (route_request m q) in change (route_request m q) with rr end;
+    unfold run_handler; cbn [rt_handler];
+    unfold do_delete_topic, do_empty_topic, do_pause_topic, do_create_channel, do_delete_channel,
+      do_empty_channel, do_pause_channel, existing_topic_from_query, new_req_params, read_all, herr;
+    rewrite Q, ?BE, QT, ?VT, ?QC, ?VC, NX; reflexivity.
+Qed.
+
+Definition existing_channel_paths : list string :=
+  ["/channel/delete"; "/channel/empty"; "/channel/pause"; "/channel/unpause"]%string.
+
+Theorem unknown_channel_404 : forall c st r p ps t ch,
+  tls_gate c = false -> In p existing_channel_paths -> r_method r = MPost -> r_path r = str p ->
+  r_query r = QOk ps -> r_body_err r = false ->
+  qget k_topic ps = Some t -> is_valid_name t = true ->
+  qget k_channel ps = Some ch -> is_valid_name ch = true ->
+  topic_exists st t = true -> chan_exists st t ch = false ->
+  serve c st r = (Resp 404 (str "CHANNEL_NOT_FOUND"), []).
+Proof.
+  intros c st r p ps t ch T Hin M P Q BE QT VT QC VC TX NX. unfold existing_channel_paths in Hin. cbn [In] in Hin.
+  repeat match type of Hin with _ \/ _ => destruct Hin as [Hin|Hin] end; try contradiction; subst p.
+  all: unfold serve; rewrite T, M, P;
+    match goal with |- context [route_request ?m ?q] =>
+      let rr := eval vm_compute in (route_request m q) in change (route_request m q) with rr end;
+    unfold run_handler; cbn [rt_handler];
+    unfold do_delete_channel, do_empty_channel, do_pause_channel, existing_topic_from_query, new_req_params, read_all, herr;
+    rewrite Q, BE, QT, VT, QC, VC, TX; cbn [negb]; rewrite NX; reflexivity.
+Qed.
+
+(* oversize -> 413: a /pub body longer than max-msg-size, declared or chunked; a declared
+   /mpub body longer than max-body-size; a chunked text /mpub body longer than max-body-size *)
+Theorem pub_oversize_413 : forall c st r body,
+  tls_gate c = false -> 0 <= max_msg c -> r_method r = MPost -> r_path r = str "/pub" ->
+  complete_body r body -> max_msg c < blen body ->
+  serve c st r = (Resp 413 (str "MSG_TOO_BIG"), []).
+Proof.
+  intros c st r body T Hm M P CB Big.
+  rewrite (serve_at c st r (rt_static MPost "/pub" HPub) T) by (rewrite M, P; exact rr_pub).
+  unfold run_handler. cbn [rt_handler rt_static]. rewrite (do_pub_spec c r body Hm CB).
+  replace (blen body >? max_msg c) with true by lia. reflexivity.
+Qed.
+
+Theorem mpub_declared_oversize_413 : forall c st r n,
+  tls_gate c = false -> r_method r = MPost -> r_path r = str "/mpub" ->
+  r_framing r = Declared n -> max_body c < n ->
+  serve c st r = (Resp 413 (str "BODY_TOO_BIG"), []).
+Proof.
+  intros c st r n T M P F Big.
+  rewrite (serve_at c st r (rt_static MPost "/mpub" HMpub) T) by (rewrite M, P; exact rr_mpub).
+  unfold run_handler. cbn [rt_handler rt_static]. unfold do_mpub, content_length. rewrite F.
+  replace (n >? max_body c) with true by lia. reflexivity.
+Qed.
+
+Theorem mpub_text_oversize_413 : forall c st r ps name body,
+  tls_gate c = false -> 0 <= max_msg c -> 0 <= max_body c ->
+  r_method r = MPost -> r_path r = str "/mpub" -> r_query r = QOk ps -> complete_body r body ->
+  qget k_topic ps = Some name -> is_valid_name name = true -> binary_mode ps = false ->
+  max_body c < blen body ->
+  exists tok effs, serve c st r = (Resp 413 tok, effs) /\ (forall t b d, ~ In (EEnqueue t b d) effs).
+Proof.
+  intros c st r ps name body T Hm Hb M P Q (RB & RE & RF) QT V BM Big.
+  rewrite (serve_at c st r (rt_static MPost "/mpub" HMpub) T) by (rewrite M, P; exact rr_mpub).
+  unfold run_handler. cbn [rt_handler rt_static]. rewrite (do_mpub_text_spec c r ps name Q QT BM), V.
+  destruct (content_length r >? max_body c).
+  - do 2 eexists. split; [reflexivity|]. intros t b d [].
+  - destruct (text_mpub_oversize_413 c r body Hm Hb RB RE Big) as [tok E]. rewrite E.
+    do 2 eexists. split; [reflexivity|]. cbn. intros t b d [X|[]]. discriminate.
+Qed.
+
+(* an empty /pub body -> 400 MSG_EMPTY; an out-of-range, negative or unparsable defer -> 400 INVALID_DEFER *)
+Theorem pub_empty_400 : forall c st r,
+  tls_gate c = false -> 0 <= max_msg c -> r_method r = MPost -> r_path r = str "/pub" ->
+  complete_body r [] -> serve c st r = (Resp 400 (str "MSG_EMPTY"), []).
+Proof.
+  intros c st r T Hm M P CB.
+  rewrite (serve_at c st r (rt_static MPost "/pub" HPub) T) by (rewrite M, P; exact rr_pub).
+  unfold run_handler. cbn [rt_handler rt_static]. rewrite (do_pub_spec c r [] Hm CB).
+  change (blen []) with 0. replace (0 >? max_msg c) with false by lia. reflexivity.
+Qed.
+
+Theorem pub_bad_defer_400 : forall c st r ps name ds body,
+  tls_gate c = false -> 0 <= max_msg c -> 0 <= max_req c < max_i64 ->
+  r_method r = MPost -> r_path r = str "/pub" -> r_query r = QOk ps -> complete_body r body ->
+  1 <= blen body <= max_msg c ->
+  qget k_topic ps = Some name -> is_valid_name name = true -> qget k_defer ps = Some ds ->
+  (match parse_int ds with
+   | None => True
+   | Some di => di < 0 \/ max_req c < di * ns_per_ms
+   end) ->
+  serve c st r = (Resp 400 (str "INVALID_DEFER"), [ECreateTopic name]).
+Proof.
+  intros c st r ps name ds body T Hm Hr M P Q CB HB QT V QD Bad.
+  rewrite (serve_at c st r (rt_static MPost "/pub" HPub) T) by (rewrite M, P; exact rr_pub).
+  unfold run_handler. cbn [rt_handler rt_static]. rewrite (do_pub_spec c r body Hm CB).
+  replace (blen body >? max_msg c) with false by lia. replace (blen body =? 0) with false by lia.
+  rewrite (topic_from_query_ok r ps name Q QT), V, QD.
+  rewrite (http_defer_spec (max_req c) (parse_int ds) Hr).
+  destruct (parse_int ds) as [di|]; [|reflexivity].
+  replace ((0 <=? di) && (di * ns_per_ms <=? max_req c)) with false by lia. reflexivity.
+Qed.
+
+(* known path, another method -> 405 (OPTIONS -> 200 with Allow); checked for every
+   registered path and every method *)
+Definition static_paths : list bytes := map rt_path (filter (fun rt => negb (rt_param rt)) routes).
+Lemma wrong_method_405_table :
+  forallb (fun p => forallb (fun m =>
+      match find_route m p with
+      | Some _ => true
+      | None => match route_request m p with
+                | RMethodNotAllowed => negb (method_eqb m MOptions)
+                | ROptionsOk => method_eqb m MOptions
+                | RRedirect _ => true    (* GET /debug/pprof/... style paths that differ by a slash *)
+                | _ => false
+                end
+      end) (MOptions :: all_methods)) static_paths = true.
+Proof. vm_compute. reflexivity. Qed.
+
+Theorem wrong_method_405 : forall m p, In p static_paths -> find_route m p = None ->
+  match route_request m p with
+  | RMethodNotAllowed => m <> MOptions
+  | ROptionsOk => m = MOptions
+  | RRedirect _ => True
+  | _ => False
+  end.
+Proof.
+  intros m p Hin NF. pose proof wrong_method_405_table as Tb.
+  rewrite forallb_forall in Tb. specialize (Tb p Hin). rewrite forallb_forall in Tb.
+  assert (Hm : In m (MOptions :: all_methods)) by (destruct m; cbn; tauto).
+  specialize (Tb m Hm). rewrite NF in Tb.
+  destruct (route_request m p); try discriminate; try exact I; destruct m; cbn in Tb; try discriminate; try reflexivity.
+Qed.
